@@ -3,6 +3,7 @@ package main
 import (
 	"fmt"
 	"go/constant"
+	"go/token"
 	"go/types"
 	"reflect"
 	"sort"
@@ -31,6 +32,7 @@ type Registration struct {
 	Fresh   bool
 	Closure *ssa.Function
 	Call    *ssa.Call
+	Lit     *ssa.MapUpdate // registration written as an entry of a map literal
 	InInit  bool
 }
 
@@ -291,11 +293,76 @@ func (u *Universe) discoverTables() error {
 			if t.Regs[i].Key != t.Regs[j].Key {
 				return t.Regs[i].Key < t.Regs[j].Key
 			}
-			return t.Regs[i].Call.Pos() < t.Regs[j].Call.Pos()
+			return t.Regs[i].Pos() < t.Regs[j].Pos()
+		})
+	}
+	// registrations written as a composite literal: the package initialiser fills a fresh map and stores it in the table
+	for fn := range p.AllFuncs {
+		if !p.InModule(fn) || fn.Blocks == nil || !isInitFunc(fn) {
+			continue
+		}
+		for _, b := range fn.Blocks {
+			for _, in := range b.Instrs {
+				st, ok := in.(*ssa.Store)
+				if !ok {
+					continue
+				}
+				g, ok := st.Addr.(*ssa.Global)
+				if !ok {
+					continue
+				}
+				t := u.TableByVar[g]
+				mm, isMake := st.Val.(*ssa.MakeMap)
+				if t == nil || !isMake {
+					continue
+				}
+				for _, r := range *mm.Referrers() {
+					mu, ok := r.(*ssa.MapUpdate)
+					if !ok || mu.Map != mm {
+						continue
+					}
+					reg := &Registration{InInit: true, Lit: mu}
+					if c, ok := mu.Key.(*ssa.Const); ok && c.Value != nil {
+						reg.KeyVal = c.Value
+						reg.Key = c.Value.ExactString()
+					} else {
+						reg.Key = "<non-constant>"
+					}
+					switch fv := mu.Value.(type) {
+					case *ssa.Function:
+						reg.Closure = fv
+					case *ssa.MakeClosure:
+						reg.Closure, _ = fv.Fn.(*ssa.Function)
+					}
+					if reg.Closure != nil {
+						reg.Type, reg.Fresh = u.factoryResult(reg.Closure)
+					}
+					t.Regs = append(t.Regs, reg)
+				}
+			}
+		}
+	}
+	for _, t := range u.Tables {
+		sort.SliceStable(t.Regs, func(i, j int) bool {
+			if t.Regs[i].Key != t.Regs[j].Key {
+				return t.Regs[i].Key < t.Regs[j].Key
+			}
+			return t.Regs[i].Pos() < t.Regs[j].Pos()
 		})
 	}
 	sort.Slice(u.Tables, func(i, j int) bool { return u.Tables[i].Name < u.Tables[j].Name })
 	return nil
+}
+
+// Pos: where the registration is written (a registrar call or an entry of a map literal).
+func (r *Registration) Pos() token.Pos {
+	if r.Call != nil {
+		return r.Call.Pos()
+	}
+	if r.Lit != nil {
+		return r.Lit.Pos()
+	}
+	return token.NoPos
 }
 
 func isInitFunc(fn *ssa.Function) bool {
@@ -407,7 +474,8 @@ func (u *Universe) discoverServices() error {
 		}
 		_ = f
 	}
-	// services: arguments of calls in codec's init functions whose dynamic type has Algorithm() string and Calc
+	// services: values of a pointer type with Algorithm() string and Calc(x) that an init function of the module turns
+	// into an interface value (to hand them to the registry – directly, through a slice literal, a loop, a helper …)
 	seen := map[*types.Named]bool{}
 	for fn := range p.AllFuncs {
 		if !p.InModule(fn) || fn.Blocks == nil || p.IsTestFile(fn.Pos()) || !isInitFunc(fn) {
@@ -415,40 +483,30 @@ func (u *Universe) discoverServices() error {
 		}
 		for _, b := range fn.Blocks {
 			for _, in := range b.Instrs {
-				call, ok := in.(*ssa.Call)
-				if !ok || call.Call.IsInvoke() {
+				mi, ok := in.(*ssa.MakeInterface)
+				if !ok {
 					continue
 				}
-				callee := call.Call.StaticCallee()
-				if callee == nil || callee.Pkg != u.Codec {
+				pt, ok := mi.X.Type().(*types.Pointer)
+				if !ok {
 					continue
 				}
-				for _, a := range call.Call.Args {
-					mi, ok := a.(*ssa.MakeInterface)
-					if !ok {
-						continue
-					}
-					pt, ok := mi.X.Type().(*types.Pointer)
-					if !ok {
-						continue
-					}
-					named, ok := pt.Elem().(*types.Named)
-					if !ok || seen[named] {
-						continue
-					}
-					algo := p.Prog.LookupMethod(pt, named.Obj().Pkg(), "Algorithm")
-					calc := p.Prog.LookupMethod(pt, named.Obj().Pkg(), "Calc")
-					if algo == nil || calc == nil {
-						continue
-					}
-					seen[named] = true
-					s := &ChecksumSvc{Type: named, Calc: calc, AlgoFn: algo, RegCall: call}
-					s.Name = constStringResult(algo)
-					if calc.Signature.Results().Len() == 1 {
-						s.ResultT = calc.Signature.Results().At(0).Type()
-					}
-					u.Services = append(u.Services, s)
+				named, ok := pt.Elem().(*types.Named)
+				if !ok || seen[named] {
+					continue
 				}
+				algo := p.Prog.LookupMethod(pt, named.Obj().Pkg(), "Algorithm")
+				calc := p.Prog.LookupMethod(pt, named.Obj().Pkg(), "Calc")
+				if algo == nil || calc == nil {
+					continue
+				}
+				seen[named] = true
+				s := &ChecksumSvc{Type: named, Calc: calc, AlgoFn: algo, RegCall: mi}
+				s.Name = constStringResult(algo)
+				if calc.Signature.Results().Len() == 1 {
+					s.ResultT = calc.Signature.Results().At(0).Type()
+				}
+				u.Services = append(u.Services, s)
 			}
 		}
 	}
